@@ -170,7 +170,10 @@ def run_property(prop, tier, seed, jobs, write_baseline, t_start):
     if not units:
         print("no units for", prop)
         return 3
-    with mp.Pool(min(jobs, max(1, len(units))), maxtasksperchild=1) as pool:
+    psize = min(jobs, max(1, len(units)))
+    for u in units:
+        u.setdefault("nproc", max(1, jobs // psize))
+    with mp.Pool(psize, maxtasksperchild=1) as pool:
         results = pool.map(_work, units, chunksize=1)
 
     known = load_known()
